@@ -289,9 +289,11 @@ pub fn gen_graph(t: &mut Tape) -> Prog {
                 }
                 let ret = if t.chance(1, 2) { Some(sig_ty(t, &mut prog)) } else { None };
                 addr += 0x10;
-                funcs.push(mk_func(format!("m{i}_{k}"), args, ret, addr));
+                // some with an underscore name: no wrapper is emitted for those, their signature has to resolve anyway
+                let fname = if t.chance(1, 4) { format!("_m{i}_{k}") } else { format!("m{i}_{k}") };
+                funcs.push(mk_func(fname, args, ret, addr));
             }
-            prog.mods[m].impls.push(Impl { ty: tname(i), funcs });
+            prog.mods[m].impls.push(Impl { more: vec![], ty: tname(i), funcs });
         }
     }
     for (i, td) in tdefs.into_iter().enumerate() {
@@ -564,6 +566,10 @@ pub fn check_complete(prog: &Prog, w: u64, built: &Built) -> Result<(), String> 
         }
         for im in &m.impls {
             for f in &im.funcs {
+                // functions with an underscore name get no wrapper
+                if f.name.starts_with('_') {
+                    continue;
+                }
                 let Some(mv) = v.method(&im.ty, &f.name) else {
                     return Err(format!("method {}::{} is missing", im.ty, f.name));
                 };
